@@ -27,10 +27,11 @@ register(
     "blocking guard alive at a coroutine Yield, (R1d) every call-graph SCC is structural AST recursion or guarded by a "
     "visited set, (R1e) every hand-written loop matching a progress idiom (parent() walk, peek/next scan, exit-tested "
     "counter, pop-driven worklist) makes its progress step on every path round the loop, and a worklist expands a node "
-    "only behind a grow-only visited test. Shards are abstracted away (any two keys of one map may collide), so the "
+    "only behind a grow-only visited test, (R1e-c) no hand-written loop is left only through tests of an atomic it re-reads "
+    "inside the loop (retry until the writers go quiet). Shards are abstracted away (any two keys of one map may collide), so the "
     "verdict covers every schedule and key placement. Loops matching no idiom (the import-scan fixpoint) and starvation "
     "are not decided.",
-    [r1.r1a_reentrancy, r1.r1b_order, r1.r1c_await, r1.r1d_recursion, r1e.r1e_loop_progress],
+    [r1.r1a_reentrancy, r1.r1b_order, r1.r1c_await, r1.r1d_recursion, r1e.r1e_loop_progress, r1e.r1e_no_wait_for_quiescence],
     assumptions=["dashmap 6.1.0 RawRwLock is reader-preferring (read from its source; version re-checked on each run)",
                  "lock operations inside dependencies are not analysed",
                  "termination is decided only as the must-pass-through progress obligation of recognised loop idioms"],
@@ -45,7 +46,7 @@ register(
     "guard or removed by remove_if, (R2b) remove_if predicates are exactly is_empty(), (R2c) retain predicates under "
     "such a guard keep exactly the other files' elements, (R2d) per-file index maps are written only under the key of "
     "the file being analysed. Decides the shape of every mutation site, not sequential equivalence of whole analyses.",
-    [r2.r2a_atomic_ops, r2.r2b_remove_if, r2.r2c_retain, r2.r2d_own_file_keys, r2.r2f_no_whole_value_insert, r1.r1f_no_try_lock, r2.r2g_canonicaliser_whole_path],
+    [r2.r2a_atomic_ops, r2.r2b_remove_if, r2.r2c_retain, r2.r2d_own_file_keys, r2.r2f_no_whole_value_insert, r1.r1f_no_try_lock, r2.r2g_canonicaliser_whole_path, r2.r2i_cleanup_loop_runs_to_the_end, r4.r4g_zip_sides_agree],
     assumptions=["DashMap entry()/get_mut()/remove_if() are atomic per key (dashmap 6.1.0 shard lock)",
                  "linearizability of whole analyses is not decided"],
 )
@@ -61,7 +62,7 @@ register(
     "(R3e) the entry's cleaning flag is false only on paths the document-synchronisation handlers cannot reach. "
     "Does not decide equality with a freshly built index for every history.",
     [r3.r3a_clean_before_append, r3.r3b_failure_path_readonly, r3.r3e_who_skips_cleaning, r3.r3h_wrappers_always_analyse,
-     r2.r2f_no_whole_value_insert, r3d.r3d_hit, r3d.r3d_stamp_origin, r3d.r3d_bump, r8.r11a_analyze_then_publish, r10.r10h_analysed_marker, r3.r3i_every_analysis_parses],
+     r2.r2f_no_whole_value_insert, r3d.r3d_hit, r3d.r3d_stamp_origin, r3d.r3d_bump, r8.r11a_analyze_then_publish, r10.r10h_analysed_marker, r3.r3i_every_analysis_parses, r2.r2g_canonicaliser_whole_path],
 )
 
 register(
@@ -102,7 +103,7 @@ register(
     "Visitor-coverage clauses of index fidelity: (R6a) the yield-line visitor and the generator-status visitor descend "
     "into the same statement-list fields, (R6b) both cover every statement-list field of the AST type universe except "
     "nested scopes. Field values (names, scopes, dependency order, docstrings, usages from marks) are not decided.",
-    [r6.r6a_yield_siblings, r6.r6b_yield, r6.r6d_all_decorators, r6.r6e_visit_order, r6.r6f_any_visitor_returns_true_only, r9.r9_char_count_plus_bytes, r8.r8d_decorator_keywords, r3.r3a_clean_before_append, r3.r3b_failure_path_readonly, r3.r3i_every_analysis_parses],
+    [r6.r6a_yield_siblings, r6.r6b_yield, r6.r6d_all_decorators, r6.r6e_visit_order, r6.r6f_any_visitor_returns_true_only, r9.r9_char_count_plus_bytes, r8.r8d_decorator_keywords, r3.r3a_clean_before_append, r3.r3b_failure_path_readonly, r3.r3i_every_analysis_parses, r8.r8i_docstring_blank_lines],
 )
 
 register(
@@ -110,7 +111,7 @@ register(
     "Visitor-coverage clauses of undeclared-fixture precision: (R6b) the body visitors descend into every nested "
     "statement list, (R6c) every name-binding form of the language is read by the local-variable collector and all "
     "parameter kinds are enumerated. The quick-fix text edit is a string-value property and is not decided.",
-    [r6.r6b_body, r6.r6c_binding_forms, r6.r6g_scope_seeds_after_collector, r10.r10i_no_textual_path_prefix, r3.r3h_wrappers_always_analyse, r8.r11a_analyze_then_publish, r8.r8a_diagnostic_codes, r2.r2h_handlers_pass_canonical_paths],
+    [r6.r6b_body, r6.r6c_binding_forms, r6.r6g_scope_seeds_after_collector, r10.r10i_no_textual_path_prefix, r3.r3h_wrappers_always_analyse, r8.r11a_analyze_then_publish, r8.r8a_diagnostic_codes, r2.r2h_handlers_pass_canonical_paths, r6.r6h_parameter_enumerators, r6.r6i_locals_grow_only],
 )
 
 from . import r5
@@ -123,7 +124,7 @@ register(
     "(R5e) the same-file stage takes the last definition; (R10j) the skip filter of import extraction tests the module "
     "string that is recorded (relative imports keep their dots), so a conftest's relative import is not dropped. "
     "That the cascade order and the conftest walk coincide with pytest for every layout is not decided.",
-    [r5.r5a_c01, r5.r5e_same_file_last, r5.r5f_walk_bounds, r10.r10j_filter_sees_recorded_module, r10.r10i_no_textual_path_prefix] + CACHE + [r3.r3a_clean_before_append, r5.r5k_single_source, r10.r10m_import_reads_are_transitive, r4.r4f_no_prefix_adaptors],
+    [r5.r5a_c01, r5.r5e_same_file_last, r5.r5f_walk_bounds, r10.r10j_filter_sees_recorded_module, r10.r10i_no_textual_path_prefix] + CACHE + [r3.r3a_clean_before_append, r5.r5k_single_source, r10.r10m_import_reads_are_transitive, r4.r4f_no_prefix_adaptors, r5.r5m_upward_step_advances],
 )
 
 register(
@@ -132,7 +133,7 @@ register(
     "site of the cascade, (R5c) every caller that resolves usages pairs the non-excluding and the excluding resolver "
     "under a test of the current definition's name against the usage name (memo lookups included). Cursor-column "
     "arithmetic and chain semantics are not decided.",
-    [r5.r5b_filter_everywhere, r5.r5c_selfref_pairing, r5.r5h_usage_before_definition_line, r5.r5g_usage_attribution, r4.r4b_unordered_pick, r2.r2h_handlers_pass_canonical_paths, r5.r5j_record_identity, r5.r5k_single_source, _r5d_flags] + CACHE,
+    [r5.r5b_filter_everywhere, r5.r5c_selfref_pairing, r5.r5h_usage_before_definition_line, r5.r5g_usage_attribution, r4.r4b_unordered_pick, r2.r2h_handlers_pass_canonical_paths, r5.r5j_record_identity, r5.r5k_single_source, _r5d_flags, r5.r5f_walk_bounds, r4.r4g_zip_sides_agree] + CACHE,
 )
 
 from . import r4
@@ -242,7 +243,7 @@ register(
     "Structural clauses of completion: (R11c) every push into the per-file view is guarded by the seen-set (one entry "
     "per name); (R8c) the textual fallback recognises every decorator module the AST recogniser accepts. Context "
     "classification per line, the offered set algebra and sort priorities are not decided.",
-    [r8.r11c_one_entry_per_name, r8.r8c_text_fallback, r8.r8e_text_fallback_on_every_miss, r8.r8f_proximity_precedence, r5.r5f_walk_bounds, r2.r2h_handlers_pass_canonical_paths] + CACHE,
+    [r8.r11c_one_entry_per_name, r8.r8c_text_fallback, r8.r8e_text_fallback_on_every_miss, r8.r8f_proximity_precedence, r5.r5f_walk_bounds, r2.r2h_handlers_pass_canonical_paths, r6.r6h_parameter_enumerators] + CACHE,
 )
 
 from . import r7
@@ -267,7 +268,7 @@ register(
     "of the value given to WalkDir::new) and the directory filter is depth-aware; (R10b) the walk's file-name predicate "
     "and the import-scan seed predicate use the same literal tests; (R10f) the parallel phase uses a "
     "non-short-circuiting consumer. That exactly pytest's file set is indexed for every tree is not decided.",
-    [r10.r10a_relocation, r10.r10a2_classification_relative, r10.r10b_filename_predicates, r10.r10f_no_short_circuit, r1.r1f_no_try_lock, r10.r10k_config_location, r8.r11e_report_root_is_scan_root, r10.r10l_skip_predicate_exact, r8.r8g_config_text_goes_to_the_parser, r10.r10n_excludes_from_loaded_config],
+    [r10.r10a_relocation, r10.r10a2_classification_relative, r10.r10b_filename_predicates, r10.r10f_no_short_circuit, r1.r1f_no_try_lock, r10.r10k_config_location, r8.r11e_report_root_is_scan_root, r10.r10l_skip_predicate_exact, r8.r8g_config_text_goes_to_the_parser, r10.r10n_excludes_from_loaded_config, r10.r10o_root_known_before_analysis],
 )
 
 register(
@@ -278,7 +279,7 @@ register(
     "extends; (R1d) import recursion is guarded by a visited set; (R10j) the import skip filter tests the recorded "
     "module string. Reachability closure on arbitrary graphs and venv layouts are not decided.",
     [r10.r10c_constructors_agree, r10.r10d_mark_before_analyse, r10.r10e_walkers, r10.r10g_no_stale_snapshot, r1.r1d_recursion, r3d.r3d_memo_context,
-     r10.r10j_filter_sees_recorded_module, r10.r10m_import_reads_are_transitive, r3d.r3d_hit, r3d.r3d_stamp_origin, r3d.r3d_bump, r3d.r3d_readset, r3d.r3d_membership_gate],
+     r10.r10j_filter_sees_recorded_module, r10.r10m_import_reads_are_transitive, r3d.r3d_hit, r3d.r3d_stamp_origin, r3d.r3d_bump, r3d.r3d_readset, r3d.r3d_membership_gate, r5.r5m_upward_step_advances, r10.r10l_skip_predicate_exact, r10.r10o_root_known_before_analysis],
 )
 
 from . import r9
@@ -289,5 +290,5 @@ register(
     "str::find results) must not reach Position.character (UTF-16) unconverted, (R9b) the request's UTF-16 cursor "
     "column must not be compared with byte columns or used as a character index. Concrete token positions (off-by-one, "
     "range containment, duplicates) are value facts and are not decided.",
-    [r9.r9_bytes_to_utf16, r9.r9_utf16_vs_bytes, r9.r9_line_base, r9.r9_char_count_plus_bytes, r5.r5i_per_document_items_pinned, r3d.r3d_stamp_origin, r3.r3a_clean_before_append, r2.r2h_handlers_pass_canonical_paths, r6.r6b_yield],
+    [r9.r9_bytes_to_utf16, r9.r9_utf16_vs_bytes, r9.r9_line_base, r9.r9_char_count_plus_bytes, r5.r5i_per_document_items_pinned, r3d.r3d_stamp_origin, r3.r3a_clean_before_append, r2.r2h_handlers_pass_canonical_paths, r6.r6b_yield, r4.r4g_zip_sides_agree],
 )
